@@ -3,3 +3,6 @@ module verif/simrt
 go 1.25
 
 toolchain go1.25.5
+
+require github.com/rjeczalik/notify v0.9.3
+require golang.org/x/sys v0.41.0
